@@ -2,7 +2,7 @@
    ExtrOcamlBasic only (bool, option, unit, list, prod, sumbool, sumor -> OCaml's own types);
    N, Z, positive, nat stay the extracted inductive types.  No Extract Constant. *)
 From Coq Require Import Extraction ExtrOcamlBasic.
-From BedV Require Import Base LapperModel AlgebraModel GMapModel TextModel.
+From BedV Require Import Base LapperModel AlgebraModel GMapModel TextModel ExtSortModel.
 Extraction Language OCaml.
 Extraction "model.ml"
   (* numbers *) N.of_nat N.to_nat N.add N.mul N.sub N.div N.modulo N.eqb N.ltb N.leb N.compare
@@ -15,4 +15,5 @@ Extraction "model.ml"
   cov_new cov_step scov_step smap_as_vec bcov_new bcov_step bcov_regions sbcov_new sbcov_step sb_get_region sb_get_chrom smap_get
   (* text *) show_N show_Z parse_uint parse_int show_grange pretty_show show_bed show_npeak show_bpeak show_bgraph
   parse_grange parse_bed parse_npeak parse_bpeak parse_bgraph score_try_from score_from_str p_score
-  reader_items write_record bytes_eqb.
+  reader_items write_record bytes_eqb
+  (* extsort *) frames dump chunk_read chunk_oracle merger_calls merge_all merge_oracle ext_sort_isort tmp_ok.
